@@ -545,15 +545,16 @@ class Recorder(object):
             kind = self.pkind
         try:
             with np.errstate(all="ignore"):
-                r = np.asarray(self.fun(x, *args), dtype=float)
+                raw = self.fun(x, *args)
+                r = np.asarray(raw, dtype=float)
             if kind is not None:
                 rec["fault"] = kind
-                r = apply_fault(r, kind, k)
+                r = raw = apply_fault(r, kind, k)
         except BaseException as e:
             rec["exc"] = e
             raise
         rec["r"] = np.array(r, copy=True)
-        return r
+        return raw       # exactly the object the user's function returned (a list, a re-used buffer, a view ...)
 
 
 _FINAL_CHECK_LINES = None
